@@ -1314,13 +1314,20 @@ def check(names=None, repo=None, tag="all"):
     text = ("(* GENERATED on every run from /repo by harness/translate.py - do not edit *)\n"
             "From CubedV Require Import Model.Util Model.Memory Model.Rechunk Model.Regular Model.Dag Model.FuseGuard Model.Admission Model.Resume Model.SpecCfg Model.Geometry Model.StoreGuard Model.IndexGuard.\nLocal Open Scope Z_scope.\n\n" + "\n".join(defs))
     (gen / "Gen.v").write_text(text)
-    (gen / "GenEquiv.v").write_text(GEN_HEADER + "".join(EQUIV[n] for n in order))
+    import re as _re
+    equiv = "".join(EQUIV[n] for n in order)
+    thms = _re.findall(r"^(?:Theorem|Corollary) (\w+)", equiv, _re.M)
+    (gen / "GenEquiv.v").write_text(GEN_HEADER + equiv + "\n" + "".join(f"Print Assumptions {t}.\n" for t in thms))
     for f in ("Gen.v", "GenEquiv.v"):
         p = subprocess.run(["timeout", "300", "coqc", "-Q", str(VERIF / "coq"), "CubedV", "-Q", str(gen), "Gen", f], cwd=gen,
                            stdout=subprocess.PIPE, stderr=subprocess.STDOUT, text=True)
         if p.returncode != 0:
             return False, f"{f} does not check: the code of a translated kernel no longer equals its model\n{p.stdout[-1200:]}", text
-    return True, f"{len(order)} kernels translated from /repo and proved equal to their models: {', '.join(order)}", text
+    closed = p.stdout.count("Closed under the global context")
+    if closed != len(thms):
+        return False, f"GenEquiv.v: {len(thms) - closed} of {len(thms)} equivalence theorems depend on axioms\n{p.stdout[-1200:]}", text
+    return True, (f"{len(order)} kernels translated from /repo and proved equal to their models: {', '.join(order)} "
+                  f"({len(thms)} equivalence theorems / source-level corollaries, all closed under the global context)"), text
 
 
 if __name__ == "__main__":
